@@ -72,7 +72,9 @@ def case_st(draw):
     for d in bd:
         if d in dims:
             base = labels[dims.index(d)]
-            r, l = draw(gen.related_labels(base, core.label_kind(base), relation=draw(st.sampled_from(["permuted", "overlapping", "subset", "equal"])), order="shuf"))
+            r, l = draw(gen.related_labels(base, core.label_kind(base), relation=draw(st.sampled_from(["permuted", "overlapping", "subset", "equal", "equal"])), order="shuf"))
+            if core.label_kind(base) == "i" and draw(st.integers(0, 2)) == 0:
+                l = [float(x) for x in l]       # the same labels as floats: equal, yet of another type
             bl.append(l)
         else:
             bl.append(draw(gen.labels(2, kinds="if", order="shuf")))
